@@ -1368,7 +1368,7 @@ fn generics_text(src: &Src, g: &syn::Generics, rules: &mut Vec<(&'static str, us
     }
 }
 
-fn extract_fn(src: &Src, file: &syn::File, selector: &str, ov: &FnOverlay, map: &mut Vec<serde_json::Value>, out_line0: usize) -> String {
+fn extract_fn(src: &Src, file: &syn::File, selector: &str, ov: &FnOverlay, map: &mut Vec<serde_json::Value>, out_line0: usize, canary: &Option<String>) -> String {
     let sel = select(file, src, selector);
     let mut w = Walker {
         src,
@@ -1447,6 +1447,20 @@ fn extract_fn(src: &Src, file: &syn::File, selector: &str, ov: &FnOverlay, map: 
     }
     // ---- body ------------------------------------------------------------------------------------
     w.walk_block(sel.block, "fn");
+    // vacuity canary: `assert(false)` at the end of the body must be refuted by the verifier
+    let mut canary_here = false;
+    if let Some(c) = canary {
+        if *c == sel.sig.ident.to_string() || norm(c) == norm(selector) {
+            canary_here = true;
+            let n = sel.block.stmts.len();
+            let pos = if n > 0 && matches!(sel.block.stmts[n - 1], syn::Stmt::Expr(_, None)) {
+                src.off(sel.block.stmts[n - 1].span().start())
+            } else {
+                src.off(sel.block.brace_token.span.close().start())
+            };
+            w.rule(pos, pos, "proof { assert(false); } /* vacuity canary */\n".to_string(), 1, -1000, "canary");
+        }
+    }
     // structure expectations
     for (k, v) in ov.expect.iter() {
         let have = match k.as_str() {
@@ -1542,6 +1556,7 @@ fn extract_fn(src: &Src, file: &syn::File, selector: &str, ov: &FnOverlay, map: 
         "edits": editlist,
         "loops": w.loops, "closures": w.closures, "ifs": w.ifs,
         "cuts": w.cut_info,
+        "canary": canary_here,
     }));
     text
 }
@@ -1621,6 +1636,7 @@ fn main() {
     let mut out = None;
     let mut mapf = None;
     let mut contracts = String::from("/verif/contracts");
+    let mut canary: Option<String> = None;
     let mut i = 1;
     while i < args.len() {
         match args[i].as_str() {
@@ -1634,6 +1650,10 @@ fn main() {
             }
             "--map" => {
                 mapf = Some(args[i + 1].clone());
+                i += 2
+            }
+            "--canary" => {
+                canary = Some(args[i + 1].clone());
                 i += 2
             }
             "--contracts" => {
@@ -1691,7 +1711,7 @@ fn main() {
                 let (s, f) = files.get(file).unwrap();
                 text.push_str(&format!("// ---- extracted from {} : {} ----\n", file, selector));
                 let line0 = text.matches('\n').count() + 1;
-                let t = extract_fn(s, f, selector, ov, &mut map, line0);
+                let t = extract_fn(s, f, selector, ov, &mut map, line0, &canary);
                 text.push_str(&t);
             }
         }
@@ -1700,6 +1720,11 @@ fn main() {
         text.push_str("} // mod pre\npub mod unit {\n");
     }
     text.push_str("} // mod unit\n} // verus!\nfn main() {}\n");
+    if let Some(c) = &canary {
+        if !map.iter().any(|m| m.get("canary").and_then(|v| v.as_bool()).unwrap_or(false)) {
+            die(&format!("lost anchor: canary function `{}` not found in unit", c));
+        }
+    }
     fs::write(&out, &text).unwrap_or_else(|e| die(&format!("cannot write {}: {}", out, e)));
     if let Some(m) = mapf {
         let j = serde_json::json!({"unit": unit, "vspec": vspec, "includes": includes, "items": map});
